@@ -26,6 +26,21 @@ def gen_case(rng, k):
         rng.shuffle(idirs)
         spell = [rng.choice(["canon", "dotdot", "dot", "symlink", "trailing"]) for _ in idirs]
         return {"files": files, "idirs": idirs, "spell": spell}
+    if k % 5 == 4:
+        # a file reached through a path with a directory part, in a directory that is neither an -I
+        # directory nor the main file's: its own BARE includes are searched in the -I directories and
+        # the main file's directory only - a file that merely sits next to it is not found
+        host_dir = rng.choice(["i1", "i2", "p/sub"])
+        idirs = [d for d in ["i1", "i2", "p/sub"] if d != host_dir and rng.random() < 0.6]
+        nm, sib = rng.sample(NAMES, 2)
+        files = {"p/main.idl": {"includes": [os.path.relpath("%s/%s" % (host_dir, nm), "p")], "garbage": False},
+                 "%s/%s" % (host_dir, nm): {"includes": [sib], "garbage": False},
+                 "%s/%s" % (host_dir, sib): {"includes": [], "garbage": False}}
+        if rng.random() < 0.5:
+            # ... unless the same name is also on the search path (then THAT file is the one loaded)
+            files["%s/%s" % (rng.choice(idirs + ["p"]), sib)] = {"includes": [], "garbage": False}
+        spell = [rng.choice(["canon", "dotdot", "dot", "symlink", "trailing"]) for _ in idirs]
+        return {"files": files, "idirs": idirs, "spell": spell}
     files = {}            # rel path -> {"includes": [...], "garbage": bool}
     nfiles = rng.randint(2, 8)
     files["p/main.idl"] = {"includes": [], "garbage": False}
